@@ -350,14 +350,92 @@ class Session(object):
         return tr
 
 
+def run_isolated(tid, length):
+    """Run one trace in a forked child; a crash of the code under test is
+    recorded as an error of the operation that was running."""
+    import os
+    r, w = os.pipe()
+    pid = os.fork()
+    if pid == 0:
+        os.close(r)
+        import resource
+        import signal
+        resource.setrlimit(resource.RLIMIT_AS, (6 << 30, 6 << 30))
+        signal.alarm(300)
+        wf = os.fdopen(w, 'w')
+        s = Session(random.Random(tid))
+        orig_log = s.log
+
+        def log(**ev):
+            orig_log(**ev)
+            wf.write(json.dumps(dict(kind='event', ev=s.events[-1])) + '\n')
+            wf.flush()
+        s.log = log
+        orig_choice = s.rng.choice
+        # journal the operation about to run
+        s.arrs = {'A': s.make('A'), 'B': s.make('B'),
+                  'R': ParticleArray(name='R')}
+        wf.write(json.dumps(dict(kind='init', init=s.snapshot())) + '\n')
+        wf.flush()
+        err = None
+        for i in range(length):
+            op = s.rng.choice(s.OPS)
+            a = s.rng.choice(['A', 'A', 'B'])
+            wf.write(json.dumps(dict(kind='about', op=op, a=a)) + '\n')
+            wf.flush()
+            try:
+                getattr(s, 'op_' + op)(a)
+            except Exception as ex:
+                err = dict(op=op, a=a, error='%s: %s' % (
+                    type(ex).__name__, ex), step=len(s.events))
+                break
+        wf.write(json.dumps(dict(kind='end', error=err)) + '\n')
+        wf.flush()
+        os._exit(0)
+    os.close(w)
+    init = None
+    events = []
+    about = None
+    err = None
+    ended = False
+    with os.fdopen(r) as rf:
+        for line in rf:
+            if not line.endswith('\n'):
+                break
+            try:
+                d = json.loads(line)
+            except ValueError:
+                break
+            if d['kind'] == 'init':
+                init = d['init']
+            elif d['kind'] == 'event':
+                events.append(d['ev'])
+            elif d['kind'] == 'about':
+                about = d
+            elif d['kind'] == 'end':
+                ended = True
+                err = d['error']
+    _, st = os.waitpid(pid, 0)
+    tr = dict(id=tid, init=init or {}, events=events)
+    if not ended:
+        tr['error'] = dict(op=(about or {}).get('op', 'construction'),
+                           a=(about or {}).get('a', ''),
+                           error='crash of the process (signal %s)' % (
+                               os.WTERMSIG(st) if os.WIFSIGNALED(st) else
+                               os.WEXITSTATUS(st)),
+                           step=len(events))
+    elif err:
+        tr['error'] = err
+    return tr
+
+
 def main():
     out, seed, ntr, length = sys.argv[1], int(sys.argv[2]), \
         int(sys.argv[3]), int(sys.argv[4])
     with open(out, 'w') as fp:
         for i in range(ntr):
             tid = '%d:%d:%d' % (seed, i, length)
-            s = Session(random.Random(tid))
-            fp.write(json.dumps(s.run(tid, length)) + '\n')
+            fp.write(json.dumps(run_isolated(tid, length)) + '\n')
 
 
 if __name__ == '__main__':
